@@ -91,6 +91,99 @@ PROPS = {
                                      "second Instant::now() of the cleanup modelled as the first (exact under the paused clock)"],
         "assumptions": ["1 <= limit <= 2^24 and 1 ns <= duration <= 2^24 s for the bounds; non-decreasing attempt times (monotonic clock)"],
     },
+    "C01": {
+        "props_file": "Props/C01.v",
+        "run_files": ["Run/CaseConn.v"],
+        "imports": ["Lib.Bytes", "Codec.Desc", "Conn.Types", "Conn.Prog", "Conn.Sem1", "Run.CaseConn"],
+        "case_type": "conn_case",
+        "checkers": {"BASE": "check_c01", "C01": "check_c01"},
+        "harness": [{"bin": "conn", "env": {"VERIF_FAMILIES": "BASE,C01"}}],
+        "shard": 40,
+        "quick_scale": 1, "thorough_scale": 8, "search_factor": 4,
+        "ties": ["conn binary: real Connection::listen on a scripted transport/client/adapters in a paused runtime vs Conn.Sem1.run1 (sends, calls, outcome, virtual ms)",
+                 "Gen/PacketsGen.v descriptors decode the client's frames and encode the model's packets"],
+        "allowed_axioms": [],
+        "rule": 'conn binary families BASE (seeded happy paths of all intents) and C01 (15 encryption-response modes x 4 authentication verdicts x Login/Transfer, with and without a valid cookie); non-trivial = distinct case that reaches the Encryption Request',
+        "trusted_base": COMMON_TB + ["Conn/Prog.v: hand transcription of Connection::listen into the program datatype (tied by the conn correspondence: every case compares the model's sends, adapter calls, outcome and virtual times with the real Connection::listen)",
+                                     "Conn/Sem1.v: frame-level semantics incl. a hand model of tokio 1.49 Interval (MissedTickBehavior::Skip), validated by every timed conn case",
+                                     "RSA PKCS#1 v1.5, serde_json, uuid generation, SystemTime: oracles recorded per case / universally quantified in the theorems",
+                                     "monitor on the implementation's trace: observable events are the implementation's, unobservable ones (frame consumption, fresh values) are aligned from the model's run"],
+        "assumptions": ["frames delivered atomically (segmentation is C08's subject)", "event times distinct from tick instants and adapter completions"],
+    },
+    "C02": {
+        "props_file": "Props/C02.v",
+        "run_files": ["Run/CaseConn.v"],
+        "imports": ["Lib.Bytes", "Codec.Desc", "Conn.Types", "Conn.Prog", "Conn.Sem1", "Run.CaseConn"],
+        "case_type": "conn_case",
+        "checkers": {"BASE": "check_c02", "C02": "check_c02"},
+        "harness": [{"bin": "conn", "env": {"VERIF_FAMILIES": "BASE,C02"}}],
+        "shard": 40,
+        "quick_scale": 1, "thorough_scale": 8, "search_factor": 4,
+        "ties": ["conn binary: real Connection::listen on a scripted transport/client/adapters in a paused runtime vs Conn.Sem1.run1 (sends, calls, outcome, virtual ms)",
+                 "Gen/PacketsGen.v descriptors decode the client's frames and encode the model's packets"],
+        "allowed_axioms": [],
+        "rule": 'conn binary family C02: per secret a valid cookie and its variants (absent, empty, ages around the expiry, other IP, other secret, truncations, bit flips, signed non-cookie bodies) x intents x secret configured or not, under the clock hook; non-trivial = distinct case in which a cookie payload was presented',
+        "trusted_base": COMMON_TB + ["Conn/Prog.v: hand transcription of Connection::listen into the program datatype (tied by the conn correspondence: every case compares the model's sends, adapter calls, outcome and virtual times with the real Connection::listen)",
+                                     "Conn/Sem1.v: frame-level semantics incl. a hand model of tokio 1.49 Interval (MissedTickBehavior::Skip), validated by every timed conn case",
+                                     "RSA PKCS#1 v1.5, serde_json, uuid generation, SystemTime: oracles recorded per case / universally quantified in the theorems",
+                                     "monitor on the implementation's trace: observable events are the implementation's, unobservable ones (frame consumption, fresh values) are aligned from the model's run"],
+        "assumptions": ["frames delivered atomically (segmentation is C08's subject)", "event times distinct from tick instants and adapter completions"],
+    },
+    "C03": {
+        "props_file": "Props/C03.v",
+        "run_files": ["Run/CaseConn.v"],
+        "imports": ["Lib.Bytes", "Codec.Desc", "Conn.Types", "Conn.Prog", "Conn.Sem1", "Run.CaseConn"],
+        "case_type": "conn_case",
+        "checkers": {"BASE": "check_c03", "C03": "check_c03"},
+        "harness": [{"bin": "conn", "env": {"VERIF_FAMILIES": "BASE,C03"}}],
+        "shard": 40,
+        "quick_scale": 1, "thorough_scale": 8, "search_factor": 4,
+        "ties": ["conn binary: real Connection::listen on a scripted transport/client/adapters in a paused runtime vs Conn.Sem1.run1 (sends, calls, outcome, virtual ms)",
+                 "Gen/PacketsGen.v descriptors decode the client's frames and encode the model's packets"],
+        "allowed_axioms": [],
+        "rule": 'conn binary family C03: 0-7 targets (IPv4/IPv6, duplicates) x filter outcome {identity, mask, reverse, empty, foreign, error} x strategy {first, last, nth, none, foreign, error} x locales x localization tables (real FixedLocalizationAdapter); non-trivial = distinct case that reaches discovery',
+        "trusted_base": COMMON_TB + ["Conn/Prog.v: hand transcription of Connection::listen into the program datatype (tied by the conn correspondence: every case compares the model's sends, adapter calls, outcome and virtual times with the real Connection::listen)",
+                                     "Conn/Sem1.v: frame-level semantics incl. a hand model of tokio 1.49 Interval (MissedTickBehavior::Skip), validated by every timed conn case",
+                                     "RSA PKCS#1 v1.5, serde_json, uuid generation, SystemTime: oracles recorded per case / universally quantified in the theorems",
+                                     "monitor on the implementation's trace: observable events are the implementation's, unobservable ones (frame consumption, fresh values) are aligned from the model's run"],
+        "assumptions": ["frames delivered atomically (segmentation is C08's subject)", "event times distinct from tick instants and adapter completions"],
+    },
+    "C06": {
+        "props_file": "Props/C06.v",
+        "run_files": ["Run/CaseConn.v"],
+        "imports": ["Lib.Bytes", "Codec.Desc", "Conn.Types", "Conn.Prog", "Conn.Sem1", "Run.CaseConn"],
+        "case_type": "conn_case",
+        "checkers": {"BASE": "check_c06", "C06": "check_c06"},
+        "harness": [{"bin": "conn", "env": {"VERIF_FAMILIES": "BASE,C06"}}],
+        "shard": 40,
+        "quick_scale": 1, "thorough_scale": 8, "search_factor": 4,
+        "ties": ["conn binary: real Connection::listen on a scripted transport/client/adapters in a paused runtime vs Conn.Sem1.run1 (sends, calls, outcome, virtual ms)",
+                 "Gen/PacketsGen.v descriptors decode the client's frames and encode the model's packets"],
+        "allowed_axioms": [],
+        "rule": 'conn binary family C06: at every protocol step of the status/login/transfer happy paths the expected frame replaced by each packet id 0..0x20,-1,0x7f,0x80 (a seeded third in the quick tier), the expected frame repeated, next-state ordinals -1..5; non-trivial = distinct case with at least two frames',
+        "trusted_base": COMMON_TB + ["Conn/Prog.v: hand transcription of Connection::listen into the program datatype (tied by the conn correspondence: every case compares the model's sends, adapter calls, outcome and virtual times with the real Connection::listen)",
+                                     "Conn/Sem1.v: frame-level semantics incl. a hand model of tokio 1.49 Interval (MissedTickBehavior::Skip), validated by every timed conn case",
+                                     "RSA PKCS#1 v1.5, serde_json, uuid generation, SystemTime: oracles recorded per case / universally quantified in the theorems",
+                                     "monitor on the implementation's trace: observable events are the implementation's, unobservable ones (frame consumption, fresh values) are aligned from the model's run"],
+        "assumptions": ["frames delivered atomically (segmentation is C08's subject)", "event times distinct from tick instants and adapter completions"],
+    },
+    "C05": {
+        "props_file": "Props/C05.v",
+        "run_files": ["Run/CaseC05.v"],
+        "imports": ["Lib.Bytes", "Crypto.CipherStream", "Run.CaseC05"],
+        "case_type": "c05case",
+        "checkers": {"WR": "check_c05", "RD": "check_c05", "SW": "check_c05"},
+        "harness": [{"bin": "stream"}],
+        "shard": 10,
+        "quick_scale": 1, "thorough_scale": 8, "search_factor": 4,
+        "ties": ["stream binary: the real CipherStream<_, cfb8::Encryptor<Aes128>, cfb8::Decryptor<Aes128>> polled by hand over a scripted inner transport vs Crypto/CipherStream.v; ciphertext recomputed with the Gallina AES-128 (FIPS-197 / SP 800-38A vectors as Examples)"],
+        "allowed_axioms": [],
+        "rule": "stream binary: WR = write schedules over {Pending, Ready 1, Ready k, Ready all, Err}* with write_all-like retries and buffer changes after Pending, payloads 0-300 bytes; SW = plaintext writes, set_encryption, more writes; RD = read chunkings {1,2,15,16,17,33,64, empty, Pending, Err} into a partly filled ReadBuf; non-trivial = distinct case with encryption on and at least one Pending or partial accept (WR/SW) or two data chunks (RD)",
+        "trusted_base": COMMON_TB + ["Spec/Aes.v (FIPS-197 AES-128) and Spec/Cfb8Spec.v (SP 800-38A CFB-8), hand-written specifications",
+                                     "hand model of crypto/stream.rs in Crypto/CipherStream.v (tied by the stream correspondence)",
+                                     "aes/cfb8 crates = the Gallina AES/CFB8 (tied by every encrypted case)"],
+        "assumptions": ["the connection-level switch (Login Success is the first encrypted packet) is covered by the conn cases, whose post-switch frames are decrypted by an independent cfb8 implementation in the harness"],
+    },
 }
 
 
@@ -100,6 +193,9 @@ def nontrivial(pid, fam, term):
         return "[]" not in term.split("(hx")[0] or fam == "DEC"
     if pid == "C13":
         return fam != "RND" or "false" in term
+    if pid == "C05":
+        if fam == "RD": return term.count("RData") >= 2
+        return " true " in term and ("WPending" in term or "WReady 1" in term)
     if pid == "C18":
         if fam == "PU32": return True
         return ("mkFilter" in term or "SFill" in term) and "mkTarget" in term
